@@ -26,7 +26,33 @@ REQUIRED = {"invariant_at_return": 3000, "role_changes": 300, "exception_returns
 BUDGET = {"quick": 150, "thorough": 600}
 
 
+def gen_pairs(ctx):
+    """every ordered pair of call kinds on one node of a fixed small tree (the second call sees
+    whatever the first one left behind), followed by an ordinary send"""
+    nodes = [0, 0o1, 0o11, 0o21, 0o2]
+    absent = 0o31
+    for dut in ((0o1,) if ctx.tier == "quick" else (0o1, 0o11, 0)):
+        par = net_ref.parent(dut) if dut else 0o1
+        own = net_ref.level(dut)
+        T = [["send", par, 0, 10], ["send", absent, 70, 30], ["send", 0o2 if dut != 0o2 else 0o1, 66, 72],
+             ["send", dut, 3, 4], ["send_invalid", 0o7], ["multicast", None, 8], ["multicast", 2, 24],
+             ["multicast", 4, 60], ["node_address", dut], ["node_address", 0o41], ["multicast_level", (own + 1) % 5],
+             ["multicast_level", own], ["multicast_level", 4], ["inject_fwd", absent, 70], ["inject_fwd", 0o11 if dut != 0o11 else 0, 1],
+             ["update"]]
+        k = 0
+        for a in T:
+            for b in T:
+                k += 1
+                calls = [list(a), list(b), ["send", par, 1, 5]]
+                if a[0] == "node_address" and a[1] != dut or b[0] == "node_address" and b[1] != dut:
+                    calls = calls[:2]  # the node moved away: its old parent no longer applies
+                yield {"kind": "net", "nodes": nodes, "dut": dut, "calls": calls, "fault": None, "fault_k": 0,
+                       "seed": 1000 + k, "profile": N.rand_profile(ctx.sub_rng("c07p", k), base=40000),
+                       "router": False}
+
+
 def gen_cases(ctx):
+    yield from gen_pairs(ctx)
     rng = ctx.sub_rng("c07")
     n = 220 if ctx.tier == "quick" else 20000
     for i in range(n):
